@@ -181,3 +181,25 @@ add("r18_3_zero_endpoint", "C18", "R18.3", "zero return",
 
 add("r10_6_unlimited_source", "C10", "R10.6", "unrounded",
     [("float/src/convert.rs", "        let repr = if self.context.precision > precision\n            || (!self.context.is_limited() && !self.repr.is_infinite())\n        {", "        let repr = if self.context.precision > precision {")])
+
+# ---- rules added after wave 3 --------------------------------------------------------------------
+add("r15_7_ctx_same_operand", "C15", "R15.7", "Context::max",
+    [("float/src/mul.rs", "Context::max(self.context, rhs.context)", "Context::max(rhs.context, rhs.context)")])
+add("r04_4b_relaxed_cubic", "C04", "R04.4b", "cubic",
+    [("rational/src/mul.rs", "    /// See [RBig::cubic] for details.\n    #[inline]\n    pub fn cubic(&self) -> Self {\n        Self(self.0.cubic())", "    /// See [RBig::cubic] for details.\n    #[inline]\n    pub fn cubic(&self) -> Self {\n        Self(self.0.sqr())")])
+add("r04_5_inv_sign", "C04", "R04.5", "Repr::inv",
+    [("rational/src/div.rs", "        let (sign, num) = self.numerator.into_parts();\n        Repr {\n            numerator: IBig::from_parts(sign, self.denominator),\n            denominator: num,\n        }", "        Repr {\n            numerator: self.denominator.into(),\n            denominator: self.numerator.unsigned_abs(),\n        }")])
+add("r06_7_f32_threshold", "C06", "R06.7", "into_f32_internal",
+    [("float/src/convert.rs", "        if self.exponent >= 128 {", "        if self.exponent >= 127 {")])
+add("r01_4_two_appends", "C01", "R01.4", "pow_dword_base",
+    [("integer/src/pow.rs", "                    res.push(c0);\n                    res.push_resizing(c1);", "                    res.push_resizing(c0);\n                    res.push_resizing(c1);")])
+add("r16_5_no_shortcut", "C16", "R16.5", "trunc",
+    [("float/src/round_ops.rs", "        } else if self.repr.smaller_than_one() {\n            return Self::ZERO;\n        }\n\n        let shift", "        }\n\n        let shift")])
+add("r13_5_twin_accessor", "C13", "R13.5", "reduce_once",
+    [("integer/src/modular/reducer.rs", "                ConstDivisorRepr::Double(d) => target - d.normalized_divisor(),", "                ConstDivisorRepr::Double(d) => target - d.divisor(),")])
+add("r20_2_swallowed_radix", "C20", "R20.2", "parse_integer_with_error",
+    [("macros/src/parse/int.rs", "            let b = b.parse::<u32>().or(Err(ParseError::UnsupportedRadix))?;", "            let b = b.parse::<u32>().unwrap_or(10);")])
+add("r18_4_estimate_in_ulp", "C18", "R18.4", "ulp",
+    [("float/src/fbig.rs", "            exponent: self.repr.exponent + self.repr.digits() as isize", "            exponent: self.repr.exponent + self.repr.digits_ub() as isize")])
+add("r06_4_sticky_plus", "C06", "R06.4", "to_f32_nontrivial",
+    [("integer/src/convert.rs", "                f32::encode((top_u31 | extra_bit) as i32, (n - 31) as i16)", "                f32::encode((top_u31 + extra_bit) as i32, (n - 31) as i16)")])
